@@ -626,11 +626,9 @@ pub fn one_case(case: u64, seed: u64, steps: usize, want_sample: bool) -> CaseOu
 }
 
 pub fn run(args: &Args, sh: &mut Shard) {
-    if args.is_miri() {
-        sh.inconclusive.push("driver-level checks use fabricated MMIO addresses for the real transports; C16 is not run under Miri".into());
-        return;
-    }
-    let steps = if args.thorough() { 2000 } else { 500 };
+    // under Miri: model transports only (see xport_any::set_model_only), tiny workloads
+    crate::xport_any::set_model_only(args.is_miri());
+    let steps = if args.is_miri() { 40 } else if args.thorough() { 2000 } else { 500 };
     if let Some(r) = &args.replay {
         let case = r.get("case").and_then(|x| x.as_u64()).unwrap_or(0);
         let o = one_case(case, args.seed, steps, true);
@@ -641,7 +639,7 @@ pub fn run(args: &Args, sh: &mut Shard) {
         sh.evaluations = 1;
         return;
     }
-    let n = args.scaled(if args.thorough() { 60_000 } else { 4_800 });
+    let n = if args.is_miri() { 48 } else { args.scaled(if args.thorough() { 60_000 } else { 4_800 }) };
     let mut case = args.shard;
     while case < n {
         let o = one_case(case, args.seed, steps, sh.want_sample());
